@@ -14,12 +14,49 @@ events, receipts) through both temporary-trie backends.
 """
 import json
 import vlib
+from trie_common import Guards, safe_engine, safe_sim, finish
 
 
 def trie2_cfg(fixed, quick_invariants):
     return ("CONSTANTS\n  H = 3\n  MaxV = 1\n  MaxSteps = 4\n  FixValueDeletePath = %s\n  Bug = \"none\"\n"
             "INIT Init\nNEXT Next\nVIEW view\nINVARIANTS %s\nCHECK_DEADLOCK FALSE\n" % (
                 "TRUE" if fixed else "FALSE", quick_invariants))
+
+
+def tlc_part(ctx, thorough):
+    # ---- 1. TLC on the specifications
+    ctx.tlc_check("trie", "LegacyTrie.tla", "Legacy_thorough.cfg" if thorough else "Legacy_quick.cfg",
+                  timeout=3000, coverage=False)
+    # the repaired trie2 design satisfies everything, including "no orphan database entries"
+    ctx.tlc_check("trie", "Trie2.tla", "Trie2_thorough.cfg" if thorough else "Trie2_quick.cfg", timeout=3000)
+    ctx.tlc_check("trie", "StateCommit.tla", "State_thorough.cfg" if thorough else "State_quick.cfg", timeout=3000)
+    # The registered Trie2 model is the repaired one (FixValueDeletePath = TRUE; trie.go:511 fixed by 85c68cc and
+    # listed as `fixed`): expectations never depend on the tree under test. A tree that still has the defect
+    # diverges from it (trie2-orphan-leaf:* / trie2-db:orphans-differ-from-model).
+    if thorough:
+        # vacuity: every action of the exhaustive configurations is taken
+        for mod, cfg in (("LegacyTrie.tla", "Legacy_quick.cfg"), ("Trie2.tla", "Trie2_quick.cfg"), ("StateCommit.tla", "State_quick.cfg")):
+            r = ctx.tlc_check("trie", mod, cfg, coverage=True, timeout=1200, label=mod + "/coverage")
+            vlib.require_actions_covered(r)
+            if not r.get("coverage"):
+                raise vlib.Broken("no action coverage reported for " + mod)
+        # spec self-test: seeded defects must violate the properties (the specification is not vacuous)
+        for mod, cfg, bug in (("LegacyTrie.tla", "Legacy_quick.cfg", "nodirty-on-delete"),
+                              ("LegacyTrie.tla", "Legacy_quick.cfg", "nodirty-on-split"),
+                              ("Trie2.tla", "Trie2_quick.cfg", "keep-flags-on-insert"),
+                              ("Trie2.tla", "Trie2_quick.cfg", "forget-edge-delete"),
+                              ("Trie2.tla", "Trie2_quick.cfg", "FixValueDeletePath")):
+            with open(vlib.VERIF + "/spec/trie/" + cfg) as f:
+                text = f.read()
+            if bug == "FixValueDeletePath":   # the pre-fix behaviour must violate NoOrphans
+                text = text.replace("FixValueDeletePath = TRUE", "FixValueDeletePath = FALSE")
+            else:
+                text = text.replace('Bug = "none"', 'Bug = "%s"' % bug)
+            r = ctx.tlc_check("trie", mod, "bug.cfg", files={"bug.cfg": text}, expect_violation=True,
+                              label="%s seeded %s" % (mod, bug), timeout=600)
+            if r["violated"] is None:
+                raise vlib.Broken("seeded defect %s is not detected by %s" % (bug, mod))
+
 
 
 def run(ctx):
@@ -33,75 +70,53 @@ def run(ctx):
 
     thorough = not ctx.quick()
 
-    # ---- 1. TLC on the specifications
-    ctx.tlc_check("trie", "LegacyTrie.tla", "Legacy_thorough.cfg" if thorough else "Legacy_quick.cfg",
-                  timeout=3000, coverage=False)
-    # the repaired trie2 design satisfies everything, including "no orphan database entries"
-    ctx.tlc_check("trie", "Trie2.tla", "Trie2_thorough.cfg" if thorough else "Trie2_quick.cfg", timeout=3000)
-    # which trie2 is under test?  FixValueDeletePath = TRUE (trie.go:511 fixed, commit 85c68cc) is the registered default;
-    # a tree that still has the defect is replayed against the FALSE variant and reports it under its own key
-    probe = ctx.run_engine(binary, "TestTrie2OrphanProbe", {})
-    has_defect = bool(probe.get("stats", {}).get("orphan"))
-    ctx.coverage["trie2_value_delete_defect_present"] = has_defect
-    if has_defect:
-        # the faithful model: everything but NoOrphans holds, and the only garbage are stale leaves
-        ctx.tlc_check("trie", "Trie2.tla", "Trie2_faithful.cfg", timeout=3000, label="Trie2.tla/faithful(FixValueDeletePath=FALSE)")
-    if thorough:
-        # vacuity: every action of the exhaustive configurations is taken
-        for mod, cfg in (("LegacyTrie.tla", "Legacy_quick.cfg"), ("Trie2.tla", "Trie2_quick.cfg"), ("StateCommit.tla", "State_quick.cfg")):
-            r = ctx.tlc_check("trie", mod, cfg, coverage=True, timeout=1200, label=mod + "/coverage")
-            vlib.require_actions_covered(r)
-            if not r.get("coverage"):
-                raise vlib.Broken("no action coverage reported for " + mod)
-        # spec self-test: seeded defects must violate the properties (the specification is not vacuous)
-        for mod, cfg, bug in (("LegacyTrie.tla", "Legacy_quick.cfg", "nodirty-on-delete"),
-                              ("LegacyTrie.tla", "Legacy_quick.cfg", "nodirty-on-split"),
-                              ("Trie2.tla", "Trie2_quick.cfg", "keep-flags-on-insert"),
-                              ("Trie2.tla", "Trie2_quick.cfg", "forget-edge-delete")):
-            with open(vlib.VERIF + "/spec/trie/" + cfg) as f:
-                text = f.read().replace('Bug = "none"', 'Bug = "%s"' % bug)
-            r = ctx.tlc_check("trie", mod, "bug.cfg", files={"bug.cfg": text}, expect_violation=True,
-                              label="%s seeded %s" % (mod, bug), timeout=600)
-            if r["violated"] is None:
-                raise vlib.Broken("seeded defect %s is not detected by %s" % (bug, mod))
+    guards = Guards()
 
     # ---- 2. replay on the real tries
     nruns = 10 if thorough else 2
     per_run = 120 if thorough else 60
     for kind, module, cfg in (("legacy", "LegacyMBT.tla", "Legacy_sim.cfg"),
-                              ("trie2", "Trie2MBT.tla", "Trie2_sim_unfixed.cfg" if has_defect else "Trie2_sim.cfg")):
+                              ("trie2", "Trie2MBT.tla", "Trie2_sim.cfg")):
         behaviours = []
         for i in range(nruns):
-            behaviours += ctx.tlc_simulate("trie", module, cfg, depth=31 * per_run, seed=ctx.seed * 1000 + i, timeout=900)
-        res = ctx.run_engine(binary, "TestTrieReplay", {"kind": kind, "h": 5, "behaviours": behaviours}, timeout=3000)
-        ctx.absorb(res, "trie", "TestTrieReplay")
+            behaviours += safe_sim(ctx, guards, "trie", module, cfg, depth=31 * per_run, seed=ctx.seed * 1000 + i, timeout=900)
+        if not behaviours:
+            continue
+        res = safe_engine(ctx, binary, "TestTrieReplay", {"kind": kind, "h": 5, "behaviours": behaviours}, "trie", guards)
+        guards.require(res.get("steps", 0) > 500 or ctx.violations, "trie replay (%s) executed only %s steps" % (kind, res.get("steps")))
         ctx.coverage["behaviours_" + kind] = len(behaviours)
         ctx.coverage["steps_replayed_" + kind] = res.get("steps", 0)
 
     # ---- 3. state level: StateCommit.tla behaviours through Blockchain.Finalise on both backends
-    ctx.tlc_check("trie", "StateCommit.tla", "State_thorough.cfg" if thorough else "State_quick.cfg", timeout=3000)
     sbeh = []
     for i in range(4 if thorough else 1):
-        sbeh += ctx.tlc_simulate("trie", "StateMBT.tla", "State_sim.cfg", depth=32 * (60 if thorough else 40),
+        sbeh += safe_sim(ctx, guards, "trie", "StateMBT.tla", "State_sim.cfg", depth=32 * (60 if thorough else 40),
                                  seed=ctx.seed * 1000 + 500 + i, timeout=900)
-    res = ctx.run_engine(binary, "TestStateReplay", {"behaviours": sbeh}, timeout=3000)
-    ctx.absorb(res, "trie", "TestStateReplay")
+    res = safe_engine(ctx, binary, "TestStateReplay", {"behaviours": sbeh}, "trie", guards)
+    guards.require(res.get("steps", 0) > 100 or ctx.violations, "state replay finalised only %s blocks" % res.get("steps"))
+    guards.require(res.get("stats", {}).get("state_restarts", 0) > 0 or ctx.violations, "no restart was replayed at the state level")
     ctx.coverage["behaviours_state"] = len(sbeh)
     ctx.coverage["blocks_finalised"] = res.get("steps", 0)
 
     # ---- 4. temporary tries (tx / event / receipt commitments) and large batches, both backends
     for test in ("TestTempTries", "TestTrieBulk"):
-        res = ctx.run_engine(binary, test, {}, timeout=3000)
-        ctx.absorb(res, "trie", test)
+        res = safe_engine(ctx, binary, test, {}, "trie", guards)
         ctx.coverage["steps_" + test] = res.get("steps", 0)
+
+    # ---- 1. TLC on the specifications (independent of the tree under test; run last so that a TLC problem can
+    # never mask a divergence observed on the real code)
+    try:
+        tlc_part(ctx, thorough)
+    except vlib.Broken as e:
+        guards.failed.append(str(e)[:1500])
 
     ctx.assumptions += [
         "core/crypto Pedersen/Poseidon and core/felt are trusted (known-answer tested upstream); hashes are injective terms in the specifications",
         "callers commit a trie before dropping it (deprecatedstate closers, state.Commit); Reopen is only taken from a committed trie",
         "universality over 251-bit keys rests on the algorithms being height-generic; height 251 is exercised through the embedding",
     ]
-    return ctx.finish(
-        "model_checking",
+    return finish(
+        ctx, guards, "model_checking",
         "exhaustive TLC on LegacyTrie.tla and Trie2.tla (H=3) + TLC-simulated behaviours (30 calls over 32 model keys: "
         "insert / overwrite / delete / zero-to-absent near present keys, Get, Hash, Commit, Reopen) replayed in lockstep on "
         "core/trie and core/trie2 at height 5 and at height 251 under a random bit-expansion embedding; non-trivial = "
